@@ -71,6 +71,8 @@ FIELD_CLASSES = {
 FIELD_CLASSES_BY_CLASS = {
     ("AuxData", "_lazy_container"): "_LazyDataContainer",
     ("CodeBlock", "decode_mode"): ("CodeBlock.DecodeMode", "enum"),
+    ("Module", "isa"): ("Module.ISA", "enum"), ("Module", "file_format"): ("Module.FileFormat", "enum"),
+    ("Module", "byte_order"): ("Module.ByteOrder", "enum"), ("Module", "entry_point"): "CodeBlock",
     ("SymAddrConst", "symbol"): "Symbol", ("SymAddrAddr", "symbol1"): "Symbol", ("SymAddrAddr", "symbol2"): "Symbol",
     ("Section", "_interval_index"): ("LazyIntervalTree", "ByteInterval"),
     ("ByteInterval", "_interval_tree"): ("LazyIntervalTree", "ByteBlock"),
@@ -279,6 +281,9 @@ class Schema:
 
     # ----------------------------------------------------------- hooks with defaults
     def isinstance_special(self, eng, sv, clsname, st):
+        if clsname in ("Sequence", "Collection", "Mapping") and sv.k in ("seq", "list", "tuple", "set", "dict"):
+            return z3.BoolVal({"Sequence": sv.k in ("seq", "list", "tuple"), "Collection": True,
+                               "Mapping": sv.k == "dict"}[clsname])
         if clsname == "UUID":
             if sv.k == "uuid":
                 return z3.BoolVal(True)
